@@ -253,6 +253,10 @@ func (d *Driver) Apply(a Action) (Event, bool) {
 		return env(c.CreateSetting(ns, a.V, parts[0], parts[1], parts[2], parts[3] == "expr", time.Now().Add(-time.Duration(a.I)*Unit)))
 	case "DeleteSetting":
 		return env(c.DeleteSetting(ns, a.V))
+	case "Mark":
+		// a marker event (e.g. SettingsDone): the state is projected, nothing is done
+		d.Applied++
+		return d.Emit(Event{Ev: a.V, Key: a.Key, Args: map[string]string{"_": ""}}), true
 	case "RestartController":
 		c.RestartActor(a.V)
 		return env(nil)
